@@ -39,7 +39,40 @@ def sf_cases(draw):
         a, b = draw(st.sampled_from([(130, 1030), (257, 4097), (600, 3), (1025, 1), (66, 16385)]))
         nb = draw(st.integers(1, 5))
     return {"a": a, "b": b, "kind": kind, "step": step, "nb": nb, "slope": draw(gen.dyadic(-4, 4, 8)), "slope2": draw(gen.dyadic(-2, 2, 8)),
-            "seed": draw(st.integers(0, 2**32 - 1)), "k": draw(gen.dyadic(-4, 4, 4))}
+            "seed": draw(st.integers(0, 2**32 - 1)), "k": draw(gen.dyadic(-4, 4, 4)), "masked": draw(st.sampled_from([None, None, "pupil", "random"]))}
+
+
+def sf_masked(ctx, sc, exact, case, kw, st_):
+    """The phase inside a pupil, as a numpy.ma.MaskedArray (the usual container for it): the mean squared difference at a lag
+    is over the pixel pairs that both exist; whatever number sits under the mask is not phase."""
+    import warnings
+    a, b = exact.shape
+    rng_ = gen.np_rng(case["seed"] + 1)
+    if case["masked"] == "pupil":
+        cy, cx = (a - 1) / 2.0, (b - 1) / 2.0
+        bad = ((np.arange(a)[:, None] - cy) / (a / 2.0)) ** 2 + ((np.arange(b)[None, :] - cx) / (b / 2.0)) ** 2 > 1.0
+    else:
+        bad = rng_.uniform(size=(a, b)) < 0.3
+    if not bad.any() or bad.all():
+        return
+    data = exact.copy()
+    data[bad] = rng_.choice([0.0, 1e6, -3e4], size=int(bad.sum()))          # under the mask: anything
+    ph = np.ma.masked_array(data, mask=bad)
+    with np.errstate(all="ignore"), warnings.catch_warnings():
+        warnings.simplefilter("ignore")
+        sf = np.ma.filled(sc.calculate_structure_function(ph, **kw), np.nan)
+    ctx.classes["masked_" + case["masked"]] += 1
+    ctx.equal(np.ma.getdata(ph), data, "calculate_structure_function modified the data of its masked input")
+    ctx.equal(np.ma.getmaskarray(ph), bad, "calculate_structure_function modified the mask of its input")
+    for j in range(1, len(sf)):
+        lag = j * st_
+        if lag >= a:
+            continue
+        ok = ~bad[:-lag, :] & ~bad[lag:, :]
+        if not ok.any():
+            continue
+        want = float(np.mean(((exact[:-lag, :] - exact[lag:, :]) ** 2)[ok]))
+        ctx.close(float(sf[j]), want, 1e-12, "masked phase (%s mask): sf[j] == mean squared difference over the pixel pairs that both exist, lag j*step" % case["masked"], scale=max(want, 1e-300), name="sf of a masked phase vs definition")
 
 
 def sf_body(ctx, case):
@@ -102,6 +135,8 @@ def sf_body(ctx, case):
         ctx.close(sf[j], want, 1e-12, "sf[j] == mean squared difference at lag j*step", scale=max(want, 1e-300), name="sf vs definition")
         if case["kind"] == "ramp":
             ctx.require(sf[j] == (case["slope"] * lag) ** 2, "ramp of slope %r: sf[%d] = %r, expected a^2 (j step)^2 = %r" % (case["slope"], j, float(sf[j]), (case["slope"] * lag) ** 2))
+    if case.get("masked") and case["kind"] in ("noise", "ramp", "quad"):
+        sf_masked(ctx, sc, exact, case, kw, st_)
     def again():
         with np.errstate(all="ignore"):
             import warnings
